@@ -24,6 +24,9 @@ enum Kind {
     InsertAfterFailedBatch,
     /// 1100 writes into the same shard (crosses the 1024-entry "full" trigger)
     Burst,
+    /// the same burst while the workers are slow: the owner's request channel is full
+    /// when a coordinator round comes by; afterwards one more small write, no flush()
+    TickOnFullChannel,
 }
 
 #[derive(Clone, Copy, Debug, PartialEq)]
@@ -69,7 +72,8 @@ struct CaseResult {
 
 fn run_case(workers: usize, shard: usize, kind: Kind, nb: Neighbours) -> CaseResult {
     let mut res = CaseResult { problems: Vec::new(), machinery: None, rounds: 0 };
-    let mut cfg = Cfg::persistent(if kind == Kind::Burst { 1300 } else { 64 });
+    let big = matches!(kind, Kind::Burst | Kind::TickOnFullChannel);
+    let mut cfg = Cfg::persistent(if big { 1300 } else { 64 });
     cfg.workers = workers;
     cfg.ttl = kind == Kind::Sweep;
     cfg.cache = false;
@@ -88,7 +92,7 @@ fn run_case(workers: usize, shard: usize, kind: Kind, nb: Neighbours) -> CaseRes
     }
     // a key for every shard
     let mut key_of: Vec<Vec<Vec<u8>>> = vec![Vec::new(); shards];
-    let want_per_shard = if kind == Kind::Burst { 1100 } else { 2 };
+    let want_per_shard = if big { 1101 } else { 2 };
     let mut i = 0u32;
     while key_of.iter().enumerate().any(|(s, v)| v.len() < if s == shard { want_per_shard } else { 2 }) {
         let k = format!("key-{i}").into_bytes();
@@ -149,10 +153,38 @@ fn run_case(workers: usize, shard: usize, kind: Kind, nb: Neighbours) -> CaseRes
             expect_absent.push(key.clone());
         }
         Kind::Burst => {
-            for k in &key_of[shard] {
+            for k in &key_of[shard][..1100] {
                 st.insert(k, b"burst").unwrap();
                 expect_present.push((k.clone(), b"burst".to_vec()));
             }
+        }
+        Kind::TickOnFullChannel => {
+            sut.sess.hold_workers.store(true, Ordering::SeqCst);
+            for k in &key_of[shard][..1100] {
+                st.insert(k, b"burst").unwrap();
+                expect_present.push((k.clone(), b"burst".to_vec()));
+            }
+            let queued = st.verif_requests_queued();
+            if queued < 2 {
+                sut.sess.hold_workers.store(false, Ordering::SeqCst);
+                res.machinery = Some(format!("the burst left only {queued} requests queued; the owner's channel is not full"));
+                return res;
+            }
+            // the tick that finds the channel full
+            let r = sut.coordinator_round_only(20_000);
+            sut.sess.hold_workers.store(false, Ordering::SeqCst);
+            if let Err(e) = r {
+                res.problems.push(format!("C19: {kind:?} on shard {shard} of {workers}: with the owner's request channel full, {e}"));
+                return res;
+            }
+            if !sut.quiesce(20_000) {
+                res.problems.push(format!("C19: {kind:?} on shard {shard} of {workers}: the workers did not drain the burst"));
+                return res;
+            }
+            // the write under test comes after the episode
+            let late = &key_of[shard][1100];
+            st.insert(late, b"after the burst").unwrap();
+            expect_present.push((late.clone(), b"after the burst".to_vec()));
         }
     }
     if kind == Kind::InsertAfterFailedBatch {
@@ -250,6 +282,7 @@ pub fn check(tier: &str, budget_s: f64, report: &mut Report) {
             }
             if thorough || shard == 0 || shard + 1 == workers {
                 cases.push((workers, shard, Kind::Burst, Neighbours::Idle));
+                cases.push((workers, shard, Kind::TickOnFullChannel, Neighbours::Idle));
             }
         }
     }
@@ -295,6 +328,7 @@ pub fn check(tier: &str, budget_s: f64, report: &mut Report) {
 pub fn debug_case(workers: usize, shard: usize, kind: &str) -> i32 {
     let kind = match kind {
         "burst" => Kind::Burst,
+        "fullchannel" => Kind::TickOnFullChannel,
         "insert" => Kind::Insert,
         "overwrite" => Kind::Overwrite,
         "delete" => Kind::Delete,
